@@ -1,6 +1,8 @@
 import FordModel.Proto
 import FordModel.Links
 import FordModel.LinkSyntax
+import FordModel.LinkWarn
+import FordModel.InlineOrder
 namespace Ford
 open Proto Links
 
@@ -41,6 +43,10 @@ def entOf (fs : List Str) : Ent :=
     { name := name, parent := optNat parent, extUrl := if ext == ['1'] then some url else none,
       chain := (nonEmpty (splitOn ';' chain)).map ancOf,
       attrs := (nonEmpty (splitOn ';' attrs)).map attrOf }
+  | [name, parent, ext, url, chain, attrs, filename] =>
+    { name := name, parent := optNat parent, extUrl := if ext == ['1'] then some url else none,
+      chain := (nonEmpty (splitOn ';' chain)).map ancOf,
+      attrs := (nonEmpty (splitOn ';' attrs)).map attrOf, filename := filename }
   | _ => default
 
 def pathOf (s : Str) : Path := nonEmpty (splitOn '/' s)
@@ -53,6 +59,7 @@ structure Query where
   path : Option Path
   ref : Ref
   text : Option Str := none   -- round 3: a whole documentation text (`T` lines); the model tokenizes it
+  pieces : Option (List Piece) := none   -- round 6: a text cut at its code spans (`C` lines)
 
 def queryOf (cwd : Path) (fs : List Str) : Query :=
   match fs with
@@ -72,11 +79,16 @@ def showTarget (P : Project) (q : Query) : Str :=
   | .ok (some id) => showNat id
   | _ => []
 
+/-- round 6: the messages handed to `warn` during the conversion, after the marker `#W` -/
+def showWarns (env : Env) (P : Project) (q : Query) (ws : List Warn) : Str :=
+  joinSep '|' ("#W".toList :: ws.map (Warn.message env P q.ctx q.path))
+
 def answerRef (env : Env) (P : Project) (q : Query) : Str :=
-  match convertLink env P q.ctx q.path q.ref with
-  | .link t h => joinSep '|' ["L".toList, t, h, showTarget P q]
-  | .text t => joinSep '|' ["T".toList, t]
-  | .err e => joinSep '|' ["X".toList, errName e]
+  let (o, ws) := convertLinkW env P q.ctx q.path q.ref
+  (match o with
+   | .link t h => joinSep '|' ["L".toList, t, h, showTarget P q]
+   | .text t => joinSep '|' ["T".toList, t]
+   | .err e => joinSep '|' ["X".toList, errName e]) ++ '|' :: showWarns env P q ws
 
 /-- `T|ctx|path|text` -/
 def textQueryOf (cwd : Path) (fs : List Str) : Query :=
@@ -93,9 +105,35 @@ def showSeg : OutSeg → Str
 
 /-- answer to a `T` query: `S|seg|seg|...` or `X|error` -/
 def answerText (env : Env) (P : Project) (q : Query) (t : Str) : Str :=
-  match convertText linkCfg env P q.ctx q.path t with
-  | .ok segs => joinSep '|' (['S'] :: segs.map showSeg)
-  | .error e => joinSep '|' [['X'], errName e]
+  let (o, ws) := convertTextW linkCfg env P q.ctx q.path t
+  (match o with
+   | .ok segs => joinSep '|' (['S'] :: segs.map showSeg)
+   | .error e => joinSep '|' [['X'], errName e]) ++ '|' :: showWarns env P q ws
+
+/-- `C|ctx|path|c<code span content>|p<running text>|...` -/
+def pieceOf : Str → Piece
+  | 'c' :: t => .code t
+  | _ :: t => .plain t
+  | [] => .plain []
+
+def pieceQueryOf (cwd : Path) (fs : List Str) : Query :=
+  match fs with
+  | ctx :: path :: ps =>
+    { ctx := optNat ctx, path := if path == ['-'] then none else some (absOf cwd path),
+      ref := { name := [] }, pieces := some (ps.map pieceOf) }
+  | _ => { ctx := none, path := none, ref := { name := [] }, pieces := some [] }
+
+def showOutPiece : OutPiece → List Str
+  | .code s => ['C' :: s]
+  | .codeSegs l => ['K'] :: l.map showSeg
+  | .segs l => l.map showSeg
+
+/-- answer to a `C` query: the flattened pieces `S|Ccode|Pplain|Ltext;href|...` or `X|error`, then the warnings -/
+def answerPieces (env : Env) (P : Project) (q : Query) (ps : List Piece) : Str :=
+  (match convertPieces codeShielded linkCfg env P q.ctx q.path ps with
+   | .ok out => joinSep '|' (['S'] :: out.flatMap showOutPiece)
+   | .error e => joinSep '|' [['X'], errName e]) ++
+    '|' :: showWarns env P q (warnPieces codeShielded linkCfg env P q.ctx q.path ps)
 
 def showRef (r : Ref) : Str :=
   joinSep ';' [r.name, (r.kind.map (fun k => '+' :: k)).getD [], (r.child.map (fun k => '+' :: k)).getD [],
@@ -108,12 +146,13 @@ def showRawSeg : Seg → Str
 /-- a `Q` query: the reference is written out and read back by the tokenizer, as the implementation
     is handed the written text; `V` = not recognised, the text stays verbatim -/
 def answer (env : Env) (P : Project) (q : Query) : Str :=
-  match q.text with
-  | some t => answerText env P q t
-  | none =>
+  match q.pieces, q.text with
+  | some ps, _ => answerPieces env P q ps
+  | none, some t => answerText env P q t
+  | none, none =>
     match segments linkCfg q.ref.render with
     | [.ref r] => answerRef env P { q with ref := r }
-    | _ => ['V']
+    | _ => "V|#W".toList
 
 structure Acc where
   ents : List Ent := []
@@ -130,6 +169,7 @@ def feed (cwd : Path) (a : Acc) (f : Str) : Acc :=
       | _ => a
     else if t == ['Q'] then { a with queries := queryOf cwd rest :: a.queries }
     else if t == ['T'] then { a with queries := textQueryOf cwd rest :: a.queries }
+    else if t == ['C'] then { a with queries := pieceQueryOf cwd rest :: a.queries }
     else a
   | [] => a
 
